@@ -79,7 +79,7 @@ func (ck *Check) actionAnchors() (map[*ssa.Function]bool, map[*ssa.Function]bool
 	for f := range actFns {
 		anchors[f] = true
 	}
-	for _, f := range []*ssa.Function{a.ScaleUp, a.ScaleDown, a.CloudStep, a.UntaintStep, a.TaintLoop, a.UntaintLoop, a.TaintClamp, a.TryDelete, a.GraceReaper, a.ForceReaper, a.Filter} {
+	for _, f := range []*ssa.Function{a.ScaleUp, a.ScaleDown, a.CloudStep, a.UntaintStep, a.TaintLoop, a.UntaintLoop, a.TaintClamp, a.TryDelete, a.GraceReaper, a.ForceReaper, a.Filter, a.Scan, a.RunOnce, a.NewController} {
 		if f != nil {
 			anchors[f] = true
 		}
@@ -171,12 +171,18 @@ func (ck *Check) bodyCalls(root *ssa.Function, match func(ssa.CallInstruction) b
 
 // bodyInstrs visits every instruction of root's extended body (see bodyCalls).
 func (ck *Check) bodyInstrs(root *ssa.Function, visit func(ctx *Ctx, fn *ssa.Function, in ssa.Instruction)) {
+	ck.bodyInstrsPC(root, func(ctx *Ctx, fn *ssa.Function, in ssa.Instruction, _ *Formula) { visit(ctx, fn, in) })
+}
+
+// bodyInstrsPC: as bodyInstrs, also handing the visitor the conjunction of the path conditions of
+// the call sites leading into the current helper (FTrue in root itself).
+func (ck *Check) bodyInstrsPC(root *ssa.Function, visit func(ctx *Ctx, fn *ssa.Function, in ssa.Instruction, prefix *Formula)) {
 	_, anchors := ck.actionAnchors()
-	var walk func(ctx *Ctx, fn *ssa.Function, depth int, stack map[*ssa.Function]bool)
-	walk = func(ctx *Ctx, fn *ssa.Function, depth int, stack map[*ssa.Function]bool) {
+	var walk func(ctx *Ctx, fn *ssa.Function, depth int, stack map[*ssa.Function]bool, prefix *Formula)
+	walk = func(ctx *Ctx, fn *ssa.Function, depth int, stack map[*ssa.Function]bool, prefix *Formula) {
 		for _, b := range fn.Blocks {
 			for _, in := range b.Instrs {
-				visit(ctx, fn, in)
+				visit(ctx, fn, in, prefix)
 				call, isCall := in.(*ssa.Call)
 				if !isCall {
 					continue
@@ -192,12 +198,12 @@ func (ck *Check) bodyInstrs(root *ssa.Function, visit func(ctx *Ctx, fn *ssa.Fun
 				ch := ctx.child(h, call, args)
 				ch.depth = 0
 				stack[h] = true
-				walk(ch, h, depth+1, stack)
+				walk(ch, h, depth+1, stack, And(prefix, ctx.PC(call)))
 				delete(stack, h)
 			}
 		}
 	}
-	walk(ck.P.NewCtx(root), root, 0, map[*ssa.Function]bool{root: true})
+	walk(ck.P.NewCtx(root), root, 0, map[*ssa.Function]bool{root: true}, FTrue)
 }
 
 func (ck *Check) isLockedCall(t *Term, g *Term) bool {
@@ -425,7 +431,7 @@ func (ck *Check) armedLast(rule string) {
 				"after the cloud provider accepted a scale-up (lock armed) the scan goes on to act on the group: "+strings.Join(after, ", "))
 		}
 	}
-	ck.floor(rule, "calls in the scan body that can arm the lock", nArm, 3)
+	ck.floor(rule, "calls in the scan body that can arm the lock", nArm, 1)
 }
 
 // lockBodies: C02.R3 and R5.
@@ -634,7 +640,7 @@ func (ck *Check) lockConstruction(rule string) {
 			}
 		}
 	}
-	ck.floor(rule, "scaleLock construction sites", n, 2)
+	ck.floor(rule, "scaleLock construction sites", n, 1)
 }
 
 // ---------------------------------------------------------------------------------------------
@@ -695,21 +701,120 @@ func checkC03(ck *Check) {
 	ck.writeConfirmed("C03.R6", a.AddTaint)
 }
 
+// effAction is an action site as seen from the loop function: the action call itself, or the call
+// of a thin wrapper around it (the loop body extracted into a helper). Success is the formula, in
+// the loop function's vocabulary, under which the action succeeded.
+type effAction struct {
+	Call    *ssa.Call // in fn
+	Inner   *ssa.Call // the action call proper
+	Wrapper *ssa.Function
+	NodeArg ssa.Value // the value in fn that becomes the action's node argument
+}
+
+func (ck *Check) effActionSite(cls string, fn *ssa.Function) *effAction {
+	for i := range ck.A.A {
+		s := ck.A.A[i]
+		if s.Class != cls {
+			continue
+		}
+		inner, ok := s.Call.(*ssa.Call)
+		if !ok {
+			continue
+		}
+		if s.Fn == fn {
+			return &effAction{Call: inner, Inner: inner, NodeArg: inner.Common().Args[0]}
+		}
+		if c, ok := ck.A.thinWrapper(s); ok && c == fn {
+			for _, ci := range callsTo(fn, s.Fn) {
+				call, ok := ci.(*ssa.Call)
+				if !ok {
+					continue
+				}
+				ea := &effAction{Call: call, Inner: inner, Wrapper: s.Fn}
+				if p, ok := inner.Common().Args[0].(*ssa.Parameter); ok {
+					for pi, q := range s.Fn.Params {
+						if q == p && pi < len(call.Common().Args) {
+							ea.NodeArg = call.Common().Args[pi]
+						}
+					}
+				}
+				return ea
+			}
+		}
+	}
+	return nil
+}
+
+// wrapperSuccess: for a wrapped action, checks that the wrapper's (last) result tells the truth
+// about the action — after the action call it returns true / a nil error exactly when the action's
+// error is nil — and returns the success formula of the wrapper call in ctx's vocabulary.
+func (ck *Check) wrapperSuccess(rule, key string, ctx *Ctx, ea *effAction) *Formula {
+	h := ea.Wrapper
+	hctx := ck.P.NewCtx(h)
+	it := hctx.Term(ea.Inner)
+	errNil := cmpFormula(token.EQL, &Term{Kind: "extract", Name: "1", Args: []*Term{it}}, &Term{Kind: "const", Name: "nil"})
+	res := h.Signature.Results()
+	if res.Len() == 0 {
+		ck.fail(rule, key+"/wrapper", ck.P.instrPos(ea.Call), funcID(h), "the helper around the write reports whether it succeeded", "no result", "successes cannot be counted")
+		return nil
+	}
+	last := res.Len() - 1
+	isB, isE := isBool(res.At(last).Type()), isErrorType(res.At(last).Type())
+	if !isB && !isE {
+		ck.fail(rule, key+"/wrapper", ck.P.instrPos(ea.Call), funcID(h), "the helper around the write reports whether it succeeded (bool or error)", res.At(last).Type().String(), "")
+		return nil
+	}
+	okv := true
+	var why []string
+	for _, b := range h.Blocks {
+		r, isRet := b.Instrs[len(b.Instrs)-1].(*ssa.Return)
+		if !isRet || !(ea.Inner.Block().Dominates(b)) {
+			continue
+		}
+		pc := hctx.BlockPC(b)
+		var succ *Formula // the formula of "this return reports success"
+		if isB {
+			succ = hctx.Formula(r.Results[last])
+		} else if f, ok := hctx.nilDecided(r.Results[last], 0); ok {
+			succ = f
+		} else {
+			succ = cmpFormula(token.EQL, hctx.Term(r.Results[last]), &Term{Kind: "const", Name: "nil"})
+		}
+		if eq, _, _ := Equivalent(And(pc, succ), And(pc, errNil)); !eq {
+			okv = false
+			why = append(why, "at "+ck.P.instrPos(r)+" the reported outcome differs from the write's error")
+		}
+	}
+	ck.cond(okv, rule, key+"/wrapper", ck.P.instrPos(ea.Inner), funcID(h), "after the write the helper reports success exactly when the write's error is nil", "", strings.Join(why, "; "))
+	// success of the wrapper call as seen by the caller
+	if isB {
+		if last == 0 {
+			return ctx.Formula(ea.Call)
+		}
+	} else if last == 0 {
+		return cmpFormula(token.EQL, ctx.Term(ea.Call), &Term{Kind: "const", Name: "nil"})
+	}
+	for _, r := range *ea.Call.Referrers() {
+		if ex, ok := r.(*ssa.Extract); ok && ex.Index == last {
+			if isB {
+				return ctx.Formula(ex)
+			}
+			return cmpFormula(token.EQL, ctx.Term(ex), &Term{Kind: "const", Name: "nil"})
+		}
+	}
+	return nil
+}
+
 // boundedEffectLoop: fn's effect call of class cls sits in a bounded-accumulator loop bounded by
 // fn's integer parameter; the accumulator grows on the effect's success edge.
 func (ck *Check) boundedEffectLoop(rule string, fn *ssa.Function, cls string) *BoundedAcc {
-	var site *Site
-	for i := range ck.A.A {
-		if ck.A.A[i].Class == cls && ck.A.A[i].Fn == fn {
-			site = &ck.A.A[i]
-		}
-	}
-	if site == nil {
+	ea := ck.effActionSite(cls, fn)
+	if ea == nil {
 		ck.lost(rule, cls+" site", "no such action site in "+funcID(fn))
 		return nil
 	}
-	call := site.Call.(*ssa.Call)
-	key := ck.P.siteKey(call)
+	call := ea.Call
+	key := ck.P.siteKey(ea.Inner)
 	bas := boundedAccumulators(fn)
 	var ba *BoundedAcc
 	for _, b := range bas {
@@ -731,7 +836,16 @@ func (ck *Check) boundedEffectLoop(rule string, fn *ssa.Function, cls string) *B
 	ctx := ck.P.NewCtx(fn)
 	ct := ctx.Term(call)
 	var errNil *Formula
+	if ea.Wrapper != nil {
+		errNil = ck.wrapperSuccess(rule, key, ctx, ea)
+		if errNil == nil {
+			return ba
+		}
+	}
 	for b := range ba.Loop.Blocks {
+		if ea.Wrapper != nil {
+			break
+		}
 		for _, at := range ctx.BlockPC(b).Atoms() {
 			if at.Kind == "cmp" && at.Name == "==" && hasConstStr(at, "nil") {
 				for _, x := range at.Args {
@@ -835,63 +949,74 @@ func (ck *Check) autoDiscovery(rule string) {
 	fMin, fMax := fieldByJSON(a.TOptions, "min_nodes"), fieldByJSON(a.TOptions, "max_nodes")
 	fCloud := fieldByJSON(a.TOptions, "cloud_provider_group_name")
 	n := 0
-	for _, fn := range ck.P.Funcs {
-		var ctx *Ctx
-		for _, b := range fn.Blocks {
-			for _, in := range b.Instrs {
-				st, ok := in.(*ssa.Store)
-				if !ok {
-					continue
+	seen := map[ssa.Instruction]bool{}
+	// the stores of NewController and RunOnce, including helpers they call (parameters bound)
+	for _, root := range []*ssa.Function{a.NewController, a.RunOnce} {
+		ck.bodyInstrsPC(root, func(ctx *Ctx, fn *ssa.Function, in ssa.Instruction, prefix *Formula) {
+			st, ok := in.(*ssa.Store)
+			if !ok || seen[st] {
+				return
+			}
+			f := fieldOfAddr(st.Addr)
+			if f != fMin && f != fMax {
+				return
+			}
+			seen[st] = true
+			n++
+			key := fmt.Sprintf("%s/store:%s", funcID(root), f.Name())
+			// the value that decides auto-discovery (the configured options) must stay as configured:
+			// the store has to land in the per-group state / a local copy, never in Opts.NodeGroups
+			_, how := storeRoot(st.Addr)
+			target := how
+			if fa, ok := st.Addr.(*ssa.FieldAddr); ok {
+				target += " " + ctx.Term(fa.X).String()
+			}
+			ck.cond(!strings.Contains(target, "NodeGroups"), rule, key+"/target", ck.P.instrPos(st), funcID(fn), "discovered bounds are written to the group's own state (or a local copy), not into the configured options that decide on auto-discovery", target,
+				"the configured min_nodes/max_nodes are overwritten, so later scans no longer see (0,0) and stop following the cloud group's bounds")
+			v := ctx.Term(st.Val)
+			wantM := "MinSize"
+			if f == fMax {
+				wantM = "MaxSize"
+			}
+			okv := v.Kind == "invoke" && v.Name == wantM && isExtractOf(v.Args[0], 0, func(t *Term) bool {
+				if t.Kind != "invoke" || t.Name != "GetNodeGroup" || len(t.Args) != 2 {
+					return false
 				}
-				f := fieldOfAddr(st.Addr)
-				if f != fMin && f != fMax {
-					continue
-				}
-				// composite literals of options in tests/main are not in shipped functions; any store counts
-				n++
-				if ctx == nil {
-					ctx = ck.P.NewCtx(fn)
-				}
-				key := fmt.Sprintf("%s/store:%s", funcID(fn), f.Name())
-				if fn != a.NewController && fn != a.RunOnce {
-					ck.fail(rule, key, ck.P.instrPos(st), funcID(fn), "min_nodes / max_nodes are (re)written only by auto-discovery in NewController and RunOnce", "", "the bound can be changed while running")
-					continue
-				}
-				// the value that decides auto-discovery (the configured options) must stay as configured:
-				// the store has to land in the per-group state / a local copy, never in Opts.NodeGroups
-				_, how := storeRoot(st.Addr)
-				ck.cond(!strings.Contains(how, "NodeGroups"), rule, key+"/target", ck.P.instrPos(st), funcID(fn), "discovered bounds are written to the group's own state (or a local copy), not into the configured options that decide whether discovery happens", how,
-					"the configured min_nodes/max_nodes are overwritten, so later scans no longer see (0,0) and stop following the cloud group's bounds")
-				v := ctx.Term(st.Val)
-				wantM := "MinSize"
-				if f == fMax {
-					wantM = "MaxSize"
-				}
-				okv := v.Kind == "invoke" && v.Name == wantM && isExtractOf(v.Args[0], 0, func(t *Term) bool {
-					if t.Kind != "invoke" || t.Name != "GetNodeGroup" || len(t.Args) != 2 {
-						return false
-					}
-					arg := t.Args[1]
-					return arg.Kind == "field" && arg.Obj == fCloud
-				})
-				ck.cond(okv, rule, key, ck.P.instrPos(st), funcID(fn), fmt.Sprintf("%s ← int(cloud group looked up by the same options' cloud_provider_group_name).%s()", f.Name(), wantM), v.String(), "the discovered bound is not the cloud group's own "+wantM)
-				// guard: auto-discover predicate
-				pc := ctx.PC(st)
-				guard := false
-				for _, at := range pc.Atoms() {
-					if at.Kind == "cmp" && at.Name == "==" && hasConstStr(at, "0") {
-						for _, x := range at.Args {
-							if x.Kind == "field" && (x.Obj == fMin || x.Obj == fMax) {
-								guard = true
-							}
+				arg := t.Args[1]
+				return arg.Kind == "field" && arg.Obj == fCloud
+			})
+			ck.cond(okv, rule, key, ck.P.instrPos(st), funcID(fn), fmt.Sprintf("%s ← int(cloud group looked up by the same options' cloud_provider_group_name).%s()", f.Name(), wantM), v.String(), "the discovered bound is not that of the group's own cloud group")
+			// guard: auto-discover predicate
+			pc := And(prefix, ctx.PC(st))
+			guard := false
+			for _, at := range pc.Atoms() {
+				if at.Kind == "cmp" && at.Name == "==" && hasConstStr(at, "0") {
+					for _, x := range at.Args {
+						if x.Kind == "field" && (x.Obj == fMin || x.Obj == fMax) {
+							guard = true
 						}
 					}
 				}
-				ck.cond(guard, rule, key+"/guard", ck.P.instrPos(st), funcID(fn), "discovery happens only when min_nodes and max_nodes are both configured as 0", pc.String(), "configured bounds are overwritten")
+			}
+			ck.cond(guard, rule, key+"/guard", ck.P.instrPos(st), funcID(fn), "discovery happens only when min_nodes and max_nodes are both configured as 0", pc.String(), "configured bounds are overwritten")
+		})
+	}
+	// … and nowhere else
+	for _, fn := range ck.P.Funcs {
+		for _, b := range fn.Blocks {
+			for _, in := range b.Instrs {
+				st, ok := in.(*ssa.Store)
+				if !ok || seen[st] {
+					continue
+				}
+				if f := fieldOfAddr(st.Addr); f == fMin || f == fMax {
+					n++
+					ck.fail(rule, fmt.Sprintf("%s/store:%s", funcID(fn), f.Name()), ck.P.instrPos(st), funcID(fn), "min_nodes / max_nodes are (re)written only by auto-discovery in NewController and RunOnce", "", "the bound can be changed while running")
+				}
 			}
 		}
 	}
-	ck.floor(rule, "auto-discovery stores", n, 4)
+	ck.floor(rule, "auto-discovery stores", n, 2)
 }
 
 // ---------------------------------------------------------------------------------------------
